@@ -1287,6 +1287,43 @@ RECURSION = "{f: function(n) if n <= 0 then 0 else f(n - 1), r: f(%d)}.r"
 # module interface
 # ------------------------------------------------------------------------------------------------------------------
 
+def gen_grammar(src):
+    """grammar-derived texts: well-formed core-fragment expressions of the C01 generator (typed, nested to depth 2-5, with
+    wrong-kind splices) and random operator trees of the C06 generator, optionally hit by one mutation, over their own bindings"""
+    from ..oracles import feel as F, feel_gen as GEN
+    kind = src.weighted([(5, "c01"), (3, "c06")])
+    scope = None
+    if kind == "c01":
+        c = GEN.G(src, wrong=0.25).case(src.int(2, 5))
+        text = F.r(c["ast"])
+        scope = [c["bindings"]]
+        cls = "grammar:c01"
+    else:
+        try:
+            from ..oracles import feel_syntax as S
+            text, names = c06_text(src, S)
+            scope = [[[n, {"n": str(i + 1)}] for i, n in enumerate(names)]]
+            cls = "grammar:c06"
+        except Exception:
+            c = GEN.G(src).case(3)
+            text, scope, cls = F.r(c["ast"]), [c["bindings"]], "grammar:c01"
+    labels = [cls]
+    if src.bool(0.4):
+        text = mutate_once(src, text)
+        labels.append("mutated")
+    return {"t": text, "es": [src.choice(["expression", "textual", "textuals", "boxed", "unary"])], "s": scope, "cls": cls, "labels": labels, "k": 3}
+
+
+def c06_text(src, S):
+    """a random operator tree of the C06 generator (full operator set) rendered with its minimal parentheses and a generated
+    token-preserving layout; returns (text, names to bind)"""
+    t = S.gen_tree(src, src.int(2, 5))
+    mp = S.minimal_parens(t)
+    tokens = S.render(t, mp[0] if isinstance(mp, tuple) else mp)
+    text = S.layout_text(tokens, S.gen_gaps(src, tokens) if src.bool(0.5) else None)
+    return text, list(S.NAMES)
+
+
 def setup(ctx):
     ctx.rule = ("cases: (text, parser entry point, parsing scope) triples evaluated through parse + prepare + evaluate on both builds; sources: every FEEL text of the "
                 "repository's tests unmutated, truncated at every prefix and mutated (token delete/duplicate/swap/replace/insert from the dictionary, character "
@@ -1310,6 +1347,7 @@ def setup(ctx):
     ctx.p_names = mkpart(ctx, "names", gen_names)
     ctx.p_iter = mkpart(ctx, "iteration")
     ctx.p_fuzz = mkpart(ctx, "fuzz")
+    ctx.p_grammar = mkpart(ctx, "grammar", gen_grammar)
     ctx.max_violations = 10 ** 6 if EXPLORE else 1
 
 
@@ -1399,6 +1437,9 @@ def run(ctx):
     if want(ctx.p_uni):
         ctx.forall(ctx.p_uni, ctx.scale(8000, 400000), batch=500)
         done(ctx, "unicode")
+    if want(ctx.p_grammar):
+        ctx.forall(ctx.p_grammar, ctx.scale(12000, 600000), batch=400)
+        done(ctx, "grammar")
 
 
     if ctx.thorough() and ctx.w == 0 and not ONLY:
